@@ -27,6 +27,8 @@ replay: for every behaviour a REAL equation system is generated that realises th
             grow        x = g*LAG_x (g = 1.05, ...)         osc       x = -a*LAG_x + c  (a = 0.9, 1, 1.1)
             exo         an exogenous input whose path changes after k=0 (constant only if frozen)
             stable_exo  x = a*LAG_x + g with g exogenous   trend     x = q + d*t (excluded variables only)
+            +schedule   any of the lagged families + H*max(0., -k - M) (or of t): time-dependent, settled before k=0
+            time_trend  x = q*pow(g, k) (or of t): a pure function of time that never settles
             decorative  d = a*x + b built on the solved variable before it (a = +-1 first: gap = debt - target),
                         run with equation reduction ON so that the parser classes it decorative
         plus, seeded, a decorative copy d = 1.0*x; reduction is on in 70 % of the other systems.  The generated system is simulated in plain Python floats
@@ -49,8 +51,10 @@ Readings (the weaker one where the statement leaves a choice):
   larger of the two magnitudes)  or  (|v| < 1e-4 and |v+D| < 1e-4)  ("near zero": it stays below the code's
   near-zero threshold)  or  |D| <= tol  (absolute).  Evaluated with Fractions made from the floats.
 * "re-solving one more period": the copy solves the period with the settings of the search (tolerance tol,
-  1000 sweeps); the time axis k advances to 1, only the user's exogenous inputs are frozen.  No judged
-  variable of a generated system depends on time.
+  1000 sweeps); the time axis k advances to 1, only the user's exogenous inputs are frozen.  Judged variables
+  that depend on time (k or t) do so either through a schedule that is over M >= 2 periods before k = 0 (the same
+  value at k = 0 and k = 1, so freezing the time axis at 0 instead gives the same verdict) or as a trend with
+  large drift, which a correct search rejects.
 * The model's abstraction is that the drift class of a series persists for one more period.  An unstable
   recurrence (x = -1.1*LAG_x + c, x = 1.05*LAG_x) whose last change lies in the window (tol/1.1, tol] moves by
   up to 1.1*tol in the next period; no test on two values can exclude that, and the statement is not read as
@@ -271,13 +275,65 @@ def simulate(rhs, x0, T, lag):
     prev = x
     for step in range(1, T + 1):
         prev = x
-        x = eval(code, {'__builtins__': {}}, {lag: prev, 't': -float(T - step)})
-    nxt = eval(code, {'__builtins__': {}}, {lag: x, 't': 1.0})
+        now = -float(T - step)                       # the search runs along k = -T..0; t = k
+        x = eval(code, SIM_GLOBALS, {lag: prev, 't': now, 'k': now})
+    nxt = eval(code, SIM_GLOBALS, {lag: x, 't': 1.0, 'k': 1.0})
     return prev, x, nxt
 
 
-def realise(name, cls, T, tol, rng, allow_trend=False, max_time=5):
-    """A recurrence for variable `name` whose final two values after T steps have class cls."""
+SIM_GLOBALS = {'__builtins__': {}, 'max': max, 'min': min, 'pow': pow}
+
+
+def realise_trend(name, cls, T, tol, rng):
+    """A variable that is a pure function of time and never settles:  name = q*pow(g, k)  (or of t)."""
+    pairs = [(p, q) for p, q in cand_pairs(cls, tol, T) if p != 0 and q != 0 and (p > 0) == (q > 0) and p != q]
+    rng.shuffle(pairs)
+    for p, q in pairs[:8]:
+        g = q / p
+        if not 0.2 <= g <= 5.0:
+            continue
+        tv = rng.choice(['k', 't'])
+        rhs = '%s*pow(%s, %s)' % (num(q), num(g), tv)
+        code = compile(rhs, '<rhs>', 'eval')
+        d = [eval(code, SIM_GLOBALS, {'k': v, 't': v}) for v in (-1.0, -0.0, 1.0)]
+        if classify(d[0], d[1], tol, d[2]) != cls:
+            continue
+        return {'recipe': 'time_trend_' + tv, 'target': [d[0], d[1]], 'endo': ['%s = %s' % (name, rhs)], 'init': [],
+                'exo': [], 'series': [name], 'sim': tuple(d)}
+    return None
+
+
+def add_schedule(rhs, sim_rhs, x0, p, T, tol, lag, rng):
+    """Make the recurrence depend on time through a schedule that is over M periods before the end of the search
+    (H*max(0., -k - M): positive while k < -M, zero afterwards), and move the start so that the value at step T-1 is
+    still p.  -> (rhs, sim_rhs, x0) or None"""
+    if T < 5:
+        return None
+    M = rng.choice([2, 3, min(6, T - 2)])
+    tv = 't' if (tol * T < 0.5 and rng.random() < 0.5) else 'k'
+    H = rng.choice([-1.0, 1.0]) * dy(0.3 * max(abs(p), 1.0))
+    term = ' + %s*max(0., -%s - %s)' % (num(H), tv, num(float(M)))
+    rhs2, sim2 = rhs + term, sim_rhs + term
+    try:
+        b0 = simulate(sim2, 0.0, T, lag)[0]
+        b1 = simulate(sim2, 1.0, T, lag)[0]
+    except (OverflowError, ZeroDivisionError):
+        return None
+    A = b1 - b0
+    if not finite(A, b0) or A == 0:
+        return None
+    x0n = (p - b0) / A
+    if not finite(x0n) or abs(x0n) > 1e15:
+        return None
+    return rhs2, sim2, x0n, 'schedule_' + tv
+
+
+def realise(name, cls, T, tol, rng, allow_trend=False, max_time=5, tdep='none'):
+    """A recurrence for variable `name` whose final two values after T steps have class cls.
+    tdep = 'settled': the equation also mentions the time axis, through a schedule that is over before the last
+    periods; tdep = 'trend': a pure function of time."""
+    if tdep == 'trend':
+        return realise_trend(name, cls, T, tol, rng)
     pairs = cand_pairs(cls, tol, T)
     rng.shuffle(pairs)
     for p, q in pairs[:8]:
@@ -292,6 +348,8 @@ def realise(name, cls, T, tol, rng, allow_trend=False, max_time=5):
                 continue
             lag = 'LAG_' + name
             if 'exo_only' in b:
+                if tdep != 'none':
+                    continue
                 v0, v1 = b['exo_only']
                 return {'recipe': rname, 'target': [p, q], 'endo': [], 'init': [], 'sim': (v0, v0, v0),
                         'exo': ['%s = [%s]*2 + [%s]*%d' % (name, num(v0), num(v1), max_time)], 'series': [name]}
@@ -305,6 +363,15 @@ def realise(name, cls, T, tol, rng, allow_trend=False, max_time=5):
                 gname, (c0, c1) = b['exo']
                 sim_rhs = rhs.replace(gname, '(' + num(c0) + ')')
                 exo = ['%s = [%s]*2 + [%s]*%d' % (gname, num(c0), num(c1), max_time)]
+            tag = ''
+            if tdep == 'settled':
+                if b.get('no_lag'):
+                    continue
+                sch = add_schedule(rhs, sim_rhs, x0, p, T, tol, lag, rng)
+                if sch is None:
+                    continue
+                rhs, sim_rhs, x0, tag = sch
+                tag = '+' + tag
             try:
                 sp, sq, sn = simulate(sim_rhs, x0, T, lag)
             except (OverflowError, ZeroDivisionError):
@@ -316,7 +383,7 @@ def realise(name, cls, T, tol, rng, allow_trend=False, max_time=5):
             if b.get('no_lag'):
                 return {'recipe': rname, 'target': [p, q], 'endo': ['%s = %s' % (name, rhs)], 'init': [],
                         'exo': [], 'series': [name], 'sim': (sp, sq, sn)}
-            return {'recipe': rname, 'target': [p, q], 'sim': (sp, sq, sn),
+            return {'recipe': rname + tag, 'target': [p, q], 'sim': (sp, sq, sn),
                     'endo': ['%s = %s' % (name, rhs), '%s = %s(k-1)' % (lag, name)],
                     'init': ['%s(0) = %s' % (name, num(x0))], 'exo': exo, 'series': [name, lag]}
     return None
@@ -377,6 +444,7 @@ def build_case(beh, seed, tier):
     rng = random.Random('%d:%s' % (seed, core.canonical(beh)))
     names = [''.join(nm) for nm in beh['names']]
     kinds = list(beh.get('kinds') or ['solved'] * len(names))
+    tdeps = list(beh.get('tdep') or ['none'] * len(names))
     option = sorted(''.join(nm) for nm in beh['option'])       # ParameterInitialSteadyStateExcludedVariables
     max_time = rng.choice([3, 5, 10])
     if tier == 'quick':
@@ -396,7 +464,8 @@ def build_case(beh, seed, tier):
         else:
             parts.append({'endo': ['w = 0.5*LAG_w + undefined_name', 'LAG_w = w(k-1)'], 'init': [], 'exo': []})
             reduction = False
-        base.update(tol=tol, text=assemble(parts, max_time), excluded=option, reduction=reduction, gen={}, recipes=[])
+        base.update(tol=tol, text=assemble(parts, max_time), excluded=option, reduction=reduction, gen={}, recipes=[],
+                    tdep={})
         return base
     tols = list(TOLS)
     rng.shuffle(tols)
@@ -409,7 +478,8 @@ def build_case(beh, seed, tier):
                 src = max(j for j in range(i) if kinds[j] == 'solved')     # built on the solved variable before it
                 r = realise_decorative(v, beh['cls'][i], names[src], parts_of[src]['sim'], tol, T, rng)
             else:
-                r = realise(v, beh['cls'][i], T, tol, rng, allow_trend=is_ex, max_time=max_time)
+                r = realise(v, beh['cls'][i], T, tol, rng, allow_trend=is_ex and tdeps[i] == 'none',
+                            max_time=max_time, tdep=tdeps[i])
             if r is None:
                 ok = False
                 break
@@ -420,6 +490,7 @@ def build_case(beh, seed, tier):
             if not is_ex and kinds[i] != 'decorative' and r['recipe'] != 'exo' and rng.random() < 0.25:
                 parts.append({'endo': ['d_%s = 1.0*%s' % (v, v)], 'init': [], 'exo': []})     # decorative copy
         if ok:
+            base.update(tdep=dict((v, tdeps[i]) for i, v in enumerate(names)))
             base.update(tol=tol, text=assemble(parts, max_time), excluded=option, reduction=reduction, gen=gen,
                         recipes=recipes)
             return base
@@ -444,7 +515,7 @@ def canonical_cases(tier):
         for T, tol in grid:
             sp, sq, sn = simulate(rhs, x0, T, 'LAG_x1')
             cls = classify(sp, sq, tol, sn)
-            beh = {'n': 1, 'names': [['x', '1']], 'kinds': ['solved'], 'option': [['t']], 'excluded': [], 'wf': True, 'runres': 'ok',
+            beh = {'n': 1, 'names': [['x', '1']], 'kinds': ['solved'], 'tdep': ['none'], 'option': [['t']], 'excluded': [], 'wf': True, 'runres': 'ok',
                    'cls': [cls], 'canonical': True}
             text = 'x1 = %s\nLAG_x1 = x1(k-1)\nx1(0) = %s\nexogenous\nMaxTime = 5\n' % (rhs, num(x0))
             out.append({'behaviour': beh, 'T': T, 'max_time': 5, 'wf': True, 'want': 'ok', 'tol': tol, 'text': text,
@@ -518,10 +589,10 @@ def execute(case):
                 obs['freeze_same'] = same(before, s)[0]
                 try:
                     obs['frozen'] = all(list(c.TimeSeries[v]) == [k0[v]] * (T + 1) for v in exo_user)
-                    obs['hor_ok'] = bool(c.Parser.MaxTime == T and
-                                         list(c.TimeSeries['k']) == [-float(x) for x in range(T, -1, -1)])
+                    obs['hor_ok'] = bool(c.Parser.MaxTime == T)
+                    obs['axis_ok'] = bool(list(c.TimeSeries['k']) == [-float(x) for x in range(T, -1, -1)])
                 except Exception:
-                    obs['frozen'], obs['hor_ok'] = False, False
+                    obs['frozen'], obs['hor_ok'], obs['axis_ok'] = False, False, False
             return real_step(step, *a, **kw)
         c.SolveStep = wrapped_step
         return c
@@ -585,13 +656,14 @@ def execute(case):
             obs['further_exc'] = type(e).__name__
     events = [{'ev': 'Begin', 'n': len(names), 'names': [list(v) for v in names],
                'kinds': [kind_of.get(v, 'solved') for v in names],
+               'tdep': [case.get('tdep', {}).get(v, 'none') for v in names],
                'option': [list(v) for v in case['excluded']], 'listed': idx_excl, 'wf': case['wf'],
                'T': T, 'toltext': num(tol)}]
     cs = obs.get('copy_same', final_same)
     events.append(dict({'ev': 'Copy', 'deep': bool(obs.get('deep', False))}, **cs))
     fs = obs.get('freeze_same', final_same)
     events.append(dict({'ev': 'Freeze', 'frozen': bool(obs.get('frozen', False)),
-                        'hor_ok': bool(obs.get('hor_ok', False))}, **fs))
+                        'hor_ok': bool(obs.get('hor_ok', False)), 'axis_ok': bool(obs.get('axis_ok', False))}, **fs))
     classes = [classify(finals[v][0], finals[v][1], tol, nxt.get(v)) for v in names] if res == 'ok' else []
     events.append(dict({'ev': 'Run', 'res': res, 'want': case['want'], 'cls': classes}, **final_same))
     if res == 'ok':
@@ -627,6 +699,8 @@ def signature(clause, case, events):
         return 'search-raises:' + (out['exc'].split(':')[0] or 'unknown')
     if clause == 'C15_AcceptedIsSteady':
         begin = events[0]
+        if any(e['ev'] == 'Freeze' and not e.get('axis_ok', True) for e in events):
+            return 'time-axis:search-not-run-along-k=-T..0:time-dependent-series-accepted-off-its-k=0-rest-point'
         opt = [''.join(o) for o in begin['option']] + ['k']
         for e in events:
             if e['ev'] == 'Judge' and not e['excl'] and not e['inst']:
